@@ -397,6 +397,16 @@ class Planner:
         if k == 11:
             if not sh:
                 return a
+            if self.cfg.get("indexed_sums") and not self.nfi(a):
+                # a nest of tensor-valued sums under one index operation (the simplification
+                # of Indexed recurses through every level)
+                for _ in range(r.randint(1, self.cfg["indexed_sums"])):
+                    b = self.expr(M, max(0, depth - 2))
+                    if b is not None and self.shape(b) == sh and not self.nfi(b):
+                        a = self.call("operator.add", self.ref(a), self.ref(b)) or a
+                    else:
+                        a = self.call("operator.add", self.ref(a), self.ref(a)) or a
+                A = self.ref(a)
             return self.call("operator.getitem", A, ["t"] + [r.randrange(n) for n in sh])
         if k == 12:
             if len(sh) == 2:
